@@ -142,9 +142,9 @@ class HistoryFamily:
         if rng.random() < 0.15:
             return self.gen_shared_disjunction(rng, tier)
         nv = rng.choice([1, 2, 2, 3])
-        base = gen_query.gen_case(rng, nvars=nv, falsy=True, neg=True, maxdepth=2, select=rng.choice(['all', 'some']), dom_max=3)
+        base = gen_query.gen_case(rng, nvars=nv, falsy=True, neg=True, maxdepth=2, select=rng.choice(['all', 'some']), dom_max=3, empty_dom=True)
         while base['cond'] is None:
-            base = gen_query.gen_case(rng, nvars=nv, falsy=True, neg=True, maxdepth=2, select=rng.choice(['all', 'some']), dom_max=3)
+            base = gen_query.gen_case(rng, nvars=nv, falsy=True, neg=True, maxdepth=2, select=rng.choice(['all', 'some']), dom_max=3, empty_dom=True)
         keys = [k for k, _ in base['doms']]
         share_conds = [False]
         pool = [dict(sel=base['sel'], cond=base['cond'], binders=base['binders'], form=base['form'])]
